@@ -38,7 +38,7 @@ def evName : Ev → String
   | .sys (.rename a b) => s!"rename:{pName a}:{pName b}"
   | .sys (.unlink p) => s!"unlink:{pName p}"
 
-def parseMode : String → Option Mode
+def parseMode : String → Option FsMode
   | "replace" => some .replace | "nobackup" => some .noBackup | "oeqf" => some .oEqualsF | _ => none
 
 def parseContent (s : String) : Option (Option Bytes) :=
